@@ -12,6 +12,14 @@ Theorem c14_size_is_length : forall (raw : str) (rows : list row) (b : str),
 Proof. exact size_is_length. Qed.
 Print Assumptions c14_size_is_length.
 
+(** loadRawMsg leaves every reconstructed text that contains a CRLF (every
+    text the reconstruction writes: header lines end in CRLF) unchanged, so
+    bare LF / lone CR inside part content are served as stored. *)
+Theorem c14_load_raw_transparent : forall recon : str,
+  contains recon crlf = true -> load_raw recon = recon.
+Proof. exact load_raw_transparent. Qed.
+Print Assumptions c14_load_raw_transparent.
+
 (** (b) BODY[HEADER] ++ BODY[TEXT] = BODY[] for EVERY text (with or without
     a blank line); the header section is the text up to and including the
     first blank line.  (Unconditional since the repair of F13,
